@@ -311,8 +311,7 @@ def main(chk: Check) -> None:
         chk.broken("translator", "C02/Gen.v", str(e))
     chk.forbidden_scan()
     if chk.coq_make(["C02/Proofs.vo", "C02/Encoder.vo", "C02/Extract.vo"]):
-        if chk.audit_props("C02/Props.v") and chk.tier == "thorough":
-            chk.coqchk(["Wz.C02.Props"])
+        chk.audit_props("C02/Props.v")
     else:
         chk.cov["obligations"] += 1
     chk.trusted += [
